@@ -1476,3 +1476,114 @@ def ao_pubsub_differential(kwargs, n, seed=0):
     elif obs["dispatch_log"] != want or obs["tokens"] != st["Q.cnt"]:
       bad.append({"schedule": k, "why": "model dispatch %s tokens %s; real %s" % (want, st["Q.cnt"], obs)})
   return {"schedules": n, "visible_operations": ops, "disagreements": bad}
+
+
+# ---- publishers scenario (C08 with several publishing threads) ----------------------------------------------------------------------------
+class RealPublishers:
+  def __init__(self, sc, sysm):
+    import itertools
+    import queue as _queue
+    from vf import core
+    core.fresh_miros()
+    import miros.activeobject as ao
+    import miros.event as ev
+    vis, _, _ = R.visibility_from(sysm)
+    self.d = d = R.Director(vis)
+    self.info = info = sc.info
+    self.ao = ao
+    self.undo = []
+    FE = ao.FabricEvent
+    for k, kind in info["class_state"].items():
+      name = "FabricEvent.%s" % k
+      if kind == "counter":
+        old = FE.__dict__[k]
+        setattr(FE, k, R.CounterProxy(d, name, 0))
+        self.undo.append(lambda _k=k, _o=old: setattr(FE, _k, itertools.count()))
+      elif kind == "RLock":
+        old = FE.__dict__[k]
+        setattr(FE, k, R.LockProxy(d, name))
+        self.undo.append(lambda _k=k, _o=old: setattr(FE, _k, _o))
+    cells = {k: "FabricEvent.%s" % k for k, kind in info["class_state"].items() if kind == "attr"}
+    if cells:
+      self.undo.append(R.shared_class_attrs(d, ao, "FabricEvent", cells))
+    self.fabric = fabric = ao.ActiveFabricSource()
+    n = 2 * len(info["calls"])
+    fabric.fifo_fabric_queue = R.make_queue(d, "fifo_queue", n)
+    fabric.lifo_fabric_queue = R.make_queue(d, "lifo_queue", n)
+    self.events = [ev.Event(signal="A") for _ in info["counts"]]
+    self.errors = {}
+    self.bodies = {t: self.body(t, cnt) for t, cnt in enumerate(info["counts"])}
+
+  def body(self, t, cnt):
+    def run():
+      try:
+        for _ in range(cnt):
+          self.fabric.publish(self.events[t], priority=5)
+      except BaseException as ex:      # noqa: the failure is the observation
+        self.errors[t] = "%s: %s" % (type(ex).__name__, ex)
+    return run
+
+  def observe(self):
+    """sequence numbers per (kind, thread, k-th publish of that thread), read from the real FabricEvent objects in the real queues"""
+    out = {}
+    for kind, q in (("fifo", self.fabric.fifo_fabric_queue), ("lifo", self.fabric.lifo_fabric_queue)):
+      per = {}
+      for item in list(q.queue):
+        t = [i for i, e in enumerate(self.events) if e is item.event][0]
+        per.setdefault(t, []).append(item.sequence)
+      for t, seqs in per.items():
+        # a thread's own publishes are put in program order: the k-th item of a thread in a queue is its k-th publish
+        for k, sq in enumerate(seqs):
+          out["%s.%d.%d" % (kind, t, k)] = sq
+    return {"sequence_numbers": out, "errors": {str(k): v for k, v in self.errors.items()}, "finished": sorted(self.d.finished)}
+
+  def cleanup(self, threads):
+    self.d.release_all()
+    for t in threads.values():
+      t.join(timeout=0.5)
+    for u in self.undo:
+      u()
+
+
+def publishers_replay(sc, sysm, res, states, infos, loop):
+  real = RealPublishers(sc, sysm)
+  threads = {}
+  try:
+    ok, detail, threads = R.run_threads(real.d, real.bodies, triples(infos))
+    time.sleep(0.02)
+    obs = real.observe()
+  finally:
+    real.cleanup(threads)
+  return {"matched": ok, "detail": detail, "real": obs}
+
+
+def publishers_differential(kwargs, n, seed=0):
+  from vf.e2.check import build
+  rnd = random.Random(seed)
+  bad = []
+  ops = 0
+  for k in range(n):
+    sc, sysm = build("publishers", kwargs)
+    st = sysm.initial()
+    infos = []
+    for _ in range(120):
+      en = sysm.enabled_concrete(st)
+      if not en:
+        break
+      st, info = sysm.step_concrete(st, rnd.choice(en))
+      infos.append(info)
+    real = RealPublishers(sc, sysm)
+    threads = {}
+    try:
+      ok, detail, threads = R.run_threads(real.d, real.bodies, triples(infos))
+      time.sleep(0.01)
+      obs = real.observe()
+    finally:
+      real.cleanup(threads)
+    ops += len(triples(infos))
+    model = {key[len("g.seq."):]: v for key, v in st.items() if key.startswith("g.seq.")}
+    if not ok:
+      bad.append({"schedule": k, "why": detail})
+    elif model != obs["sequence_numbers"] or obs["errors"]:
+      bad.append({"schedule": k, "why": "model numbers %s, real %s" % (model, obs)})
+  return {"schedules": n, "visible_operations": ops, "disagreements": bad}
